@@ -56,12 +56,22 @@ def run(ctx):
             lines.append("dod %d r:%x" % (rng.randrange(256), rng.randrange(2 ** 64)))
             cls.append("divide random")
     zs = [256, 257, 258, 2 ** 64, R - 1, R - 2] + [rng.randrange(256, R) for _ in range(ctx.n(14, 400))]
+    # points whose INTERNAL (Montgomery) representation is small: z = m * 2^-256 mod r, m < 2^64
+    rinv = pow(1 << 256, -1, R)
+    zs += [m * rinv % R for m in [1, 7, 255, 256, rng.randrange(1, 256), rng.randrange(1, 256), rng.randrange(1 << 64)]]
+    zs = [z for z in zs if z > 255]
     for z in zs:
         lines.append("baryc %x" % z)
         cls.append("bary-coeffs")
         lines.append("bary %x r:%x" % (z, rng.randrange(2 ** 64)))
         cls.append("bary-eval")
     diff(ctx, lines, "barycentric / DivideOnDomain vs model", cls)
+    # the same operations must not depend on the scheduler configuration
+    sub = [l for l in lines if l.startswith(("dod", "bary "))]
+    for gmp in ((3, 7) if ctx.quick() else (1, 2, 3, 5, 6, 7, 12)):
+        pick = rng.sample(sub, min(len(sub), 120 if ctx.quick() else 1500))
+        diff(ctx, pick, "barycentric / DivideOnDomain under GOMAXPROCS=%d" % gmp, ["gomaxprocs-%d" % gmp] * len(pick),
+             gomaxprocs=gmp, keyfn=lambda l, g=gmp: "%d|%s" % (g, l))
     # independent coefficient-form oracle
     ol, oc, want = [], [], []
     degs = [0, 1, 2, 3, 17, 128, 254, 255] if ctx.quick() else [0, 1, 2, 3, 5, 17, 100, 128, 200, 254, 255] * 4
